@@ -265,7 +265,12 @@ def check_kind_dispatch(ctx, rep, f, suffix, rule=RULE + '.b'):
                 continue
             table = lp.iter
             if isinstance(table, ast.Name):
-                defs = [n.value for n in walk_no_nested(f.node) if isinstance(n, ast.Assign) and len(n.targets) == 1 and isinstance(n.targets[0], ast.Name) and n.targets[0].id == table.id]
+                defs = []
+                g0 = f
+                while g0 is not None and not defs:
+                    # the table may be a local of an enclosing function (the dispatcher is a nested helper)
+                    defs = [n.value for n in walk_no_nested(g0.node) if isinstance(n, ast.Assign) and len(n.targets) == 1 and isinstance(n.targets[0], ast.Name) and n.targets[0].id == table.id]
+                    g0 = g0.parent
                 if len(defs) != 1:
                     continue
                 table = defs[0]
